@@ -4,6 +4,7 @@ package main
 
 import (
 	"context"
+	"os"
 	"crypto/tls"
 	"encoding/binary"
 	"fmt"
@@ -258,6 +259,9 @@ func c13Scenario(name string, o c13Opt) *e2x.Scenario {
 					}
 				}
 				*ret = true
+				// a harness point of its own: what follows reads scheduler-wide state (the position of every thread,
+				// the state of every connection) and so must count as dependent on every other transition
+				vsched.Point("observe-after-shutdown", nil)
 				if *err == nil {
 					// (vi) at the moment a successful Shutdown returns, nothing of the server is left: no goroutine the
 					// library spawned (other than one that has just signalled completion and is about to exit) and no open
@@ -443,6 +447,9 @@ func c13FailScenario(name, mode string) *e2x.Scenario {
 	}}
 }
 
+// scenarios that are also explored without a preemption bound (sleep sets)
+var c13SleepSet = map[string]bool{}
+
 func c13Spaces(c *fw.Ctx) {
 	cap := int64(600000)
 	if c.Thorough {
@@ -484,5 +491,8 @@ func c13Spaces(c *fw.Ctx) {
 			b = s.tb
 		}
 		exploreSpace(c, "C13", c13Scenario(s.name, s.o), b, cap, "serve ∥ clients ∥ Shutdown on the real Server ("+s.name+")")
+		if os.Getenv("VERIF_E2_SLEEP") == "all" || c13SleepSet[s.name] {
+			exploreSpaceSleep(c, "C13", c13Scenario(s.name, s.o), 20*cap, "serve ∥ clients ∥ Shutdown on the real Server ("+s.name+")")
+		}
 	}
 }
